@@ -139,7 +139,7 @@ def fill_scales_for_dyadic_pyramid(info, target_chunk_size=64,
     # Stop when the downscaled volume fits in two chunks (is target_chunk_size
     # adequate, or should we use the actual chunk sizes?)
     max_downscale_level = (
-        max(math.ceil(math.log2(a / target_chunk_size)) - b
+        max(math.ceil(math.log2(a / target_chunk_size)) + b
             for a, b in zip(full_scale_info["size"],
                             axis_level_delays)))
     if max_scales:
